@@ -6,7 +6,11 @@ use rtrb::PushError;
 use rtrb::RingBuffer;
 
 pub fn bounded<T>(capacity: usize) -> (Sender<T>, Receiver<T>) {
+    #[cfg(fastrace_verif)]
+    let capacity = crate::verif::ring_capacity(capacity);
     let (tx, rx) = RingBuffer::new(capacity);
+    #[cfg(fastrace_verif)]
+    crate::verif::register_chan(tx.buffer() as *const _ as usize);
     (
         Sender {
             tx,
@@ -34,23 +38,31 @@ pub struct ChannelClosed;
 impl<T> Sender<T> {
     pub fn send(&mut self, value: T) -> Result<(), ChannelFull> {
         while let Some(value) = self.pending_messages.pop() {
+            #[cfg(fastrace_verif)]
+            self.verif_push_point("replay");
             if let Err(PushError::Full(value)) = self.tx.push(value) {
                 self.pending_messages.push(value);
                 return Err(ChannelFull);
             }
         }
 
+        #[cfg(fastrace_verif)]
+        self.verif_push_point("send");
         self.tx.push(value).map_err(|_| ChannelFull)
     }
 
     pub fn force_send(&mut self, value: T) {
         while let Some(value) = self.pending_messages.pop() {
+            #[cfg(fastrace_verif)]
+            self.verif_push_point("replay");
             if let Err(PushError::Full(value)) = self.tx.push(value) {
                 self.pending_messages.push(value);
                 break;
             }
         }
 
+        #[cfg(fastrace_verif)]
+        self.verif_push_point("force");
         if let Err(PushError::Full(value)) = self.tx.push(value) {
             self.pending_messages.push(value);
         }
@@ -60,8 +72,23 @@ impl<T> Sender<T> {
 impl<T> Drop for Sender<T> {
     fn drop(&mut self) {
         for command in self.pending_messages.drain(..) {
+            #[cfg(fastrace_verif)]
+            crate::verif::push_point(self.tx.buffer() as *const _ as usize, "exit", self.tx.is_full());
             drop(self.tx.push(command));
         }
+        #[cfg(fastrace_verif)]
+        crate::verif::sender_dropped(self.tx.buffer() as *const _ as usize);
+    }
+}
+
+#[cfg(fastrace_verif)]
+impl<T> Sender<T> {
+    fn verif_push_point(&self, via: &'static str) {
+        crate::verif::push_point(self.tx.buffer() as *const _ as usize, via, self.tx.is_full());
+    }
+
+    pub(crate) fn verif_chan(&self) -> usize {
+        crate::verif::chan_of(self.tx.buffer() as *const _ as usize)
     }
 }
 
@@ -69,8 +96,25 @@ impl<T> Receiver<T> {
     pub fn try_recv(&mut self) -> Result<Option<T>, ChannelClosed> {
         match self.rx.pop() {
             Ok(val) => Ok(Some(val)),
+            #[cfg(fastrace_verif)]
+            Err(_) if self.verif_recv_empty() => unreachable!(),
             Err(_) if self.rx.is_abandoned() => Err(ChannelClosed),
             Err(_) => Ok(None),
         }
+    }
+}
+
+#[cfg(fastrace_verif)]
+impl<T> Receiver<T> {
+    /// Fires the hook between an empty pop and the abandonment check. Always returns `false`.
+    fn verif_recv_empty(&self) -> bool {
+        crate::verif::fire(|| crate::verif::Point::RecvEmpty {
+            chan: self.verif_chan(),
+        });
+        false
+    }
+
+    pub(crate) fn verif_chan(&self) -> usize {
+        crate::verif::chan_of(self.rx.buffer() as *const _ as usize)
     }
 }
